@@ -12,7 +12,7 @@ import (
 func init() { register("C02", propC02) }
 
 func propC02(c *Ctx) {
-	c.Explanation = "Liveness under loss is a property of timed executions and is not decided. Decided (path shapes, for all inputs and schedules): (W1) produce => notify: a segment enqueued by HandlePacket asserts newSegmentWaker; data queued by Write is processed under TryLock or asserts sndWaker; the FIN queued by Shutdown asserts sndCloseWaker; a zero->non-zero receive-window transition in readLocked/SetSockOpt notifies the protocol goroutine, whose handler sends the window-reopening ACK exactly when the window last announced (after scaling) was zero; (W2) every waker field of endpoint/sender/keepalive is registered with a handler in protocolMainLoop and every notify flag is tested in the notification handler or the listen loop; the handshake registers resend, notification and new-segment wakers; (W3) the retransmission timer is (re)armed with the current RTO whenever sndUna != sndNxt (data or FIN outstanding), the SYN resend timer exists before the first SYN and is reset on each resend; (W4) FIN last, nothing after it: Write queues data only while sndClosed is false, in the sndBufMu critical section; Shutdown sets sndClosed in the critical section that pushes the zero-length segment at the BACK of the send queue; sendData turns only the last, zero-length segment into FIN|ACK; the receive side closes only on a consumed in-order FIN (one sequence number, ACKed at once, readers told) and ignores everything afterwards; (W5) the main loop runs until rcv.closed && snd.closed && sndUna == sndNxtList. NOT decided: that retransmission eventually succeeds, timing, window probing by the peer."
+	c.Explanation = "Liveness under loss is a property of timed executions and is not decided. Decided (path shapes, for all inputs and schedules): (W1) produce => notify: a segment enqueued by HandlePacket asserts newSegmentWaker; data queued by Write is processed under TryLock or asserts sndWaker; the FIN queued by Shutdown asserts sndCloseWaker; a zero->non-zero receive-window transition in readLocked/SetSockOpt notifies the protocol goroutine, whose handler sends the window-reopening ACK exactly when the window last announced (after scaling) was zero; (W2) every waker field of endpoint/sender/keepalive is registered with a handler in protocolMainLoop and every notify flag is tested in the notification handler or the listen loop; the handshake registers resend, notification and new-segment wakers; (W3) the retransmission timer is (re)armed with the current RTO whenever sndUna != sndNxt (data or FIN outstanding), the SYN resend timer exists before the first SYN and is reset on each resend; (W4) FIN last, nothing after it: Write queues data only while sndClosed is false, in the sndBufMu critical section; Shutdown sets sndClosed in the critical section that pushes the zero-length segment at the BACK of the send queue; sendData turns only the last, zero-length segment into FIN|ACK; the receive side closes only on a consumed in-order FIN (one sequence number, ACKed at once, readers told) and ignores everything afterwards; (W5) the main loop runs until rcv.closed && snd.closed && sndUna == sndNxtList. (W7) logicalLen = payload + SYN + FIN (shared); a zero-length segment is consumed only exactly at rcvNxt (W4). NOT decided: that retransmission eventually succeeds, timing, window probing by the peer."
 	ep := "(*tcp.endpoint)."
 	w1 := c.Rule("W1", "K1/K2/K5 site tables", "produce => notify", 12)
 	if fn := c.Fn(w1, ep+"HandlePacket"); fn != nil {
@@ -252,6 +252,9 @@ func propC02(c *Ctx) {
 			c.Check(atoms[a], w5, FuncName(fn)+"/exit-tests:"+a, c.P.Pos(fn.Pos()), "loop condition reads "+a, "main loop no longer tests "+a+" before exiting")
 		}
 	}
+	w7 := c.Rule("W7", "K9 path table (shared with C01/R6, C03/H8)", "a segment's sequence-space length = payload + SYN + FIN: a FIN is acknowledged and consumed as exactly one sequence number", 5)
+	logicalLenRule(c, w7)
+
 	w6 := c.Rule("W6", "K3 closed call-site table", "every wake-up of the protocol goroutine is one of the reviewed sites", 12)
 	A := "(*sleep.Waker).Assert"
 	c.CheckCallers(w6, []string{A}, []CallerSpec{
